@@ -14,6 +14,7 @@ commit ids are positions in "commits" (parents have smaller ids); ref names are 
 """
 import ast
 import json
+import re
 import logging
 import os
 
@@ -106,6 +107,34 @@ def constants(repo):
         if not isinstance(val, int) or val < 0:
             raise ValueError("%s not found in ak/ghist.py" % name)
         out[key] = val
+    # the two tag regexes of ProjectRepo:  <pre>(?P<build>\d+)<sep>(?P<branch>.*)<suf>$  and
+    #                                      <pre>(?P<major>\d+)<sep>(?P<minor>\d+)$
+    pr = _find(tree, ast.ClassDef, "ProjectRepo")
+    pats = {}
+    for node in pr.body:
+        if isinstance(node, ast.Assign) and len(node.targets) == 1 and isinstance(node.targets[0], ast.Name) \
+                and node.targets[0].id in ("_RE_BUILD_TAG", "_RE_BRANCH_IN_TAG_SUBSTR"):
+            call = node.value
+            if not (isinstance(call, ast.Call) and isinstance(call.func, ast.Attribute) and call.func.attr == "compile"
+                    and len(call.args) == 1 and not call.keywords):
+                raise ValueError("unexpected definition of %s" % node.targets[0].id)
+            pats[node.targets[0].id] = ast.literal_eval(call.args[0])
+    lit = r"[A-Za-z_]*"
+    m = re.fullmatch(r"(%s)\(\?P<build>\\d\+\)(%s)\(\?P<branch>\.\*\)(%s)\$" % (lit, lit, lit), pats.get("_RE_BUILD_TAG", ""))
+    if not m or not m.group(2) or m.group(2)[0].isdigit():
+        raise ValueError("_RE_BUILD_TAG has an unexpected shape: %r" % pats.get("_RE_BUILD_TAG"))
+    out["tagPre"], out["tagSep"], out["tagSuf"] = m.groups()
+    m = re.fullmatch(r"(%s)\(\?P<major>\\d\+\)(%s)\(\?P<minor>\\d\+\)\$" % (lit, lit), pats.get("_RE_BRANCH_IN_TAG_SUBSTR", ""))
+    if not m or not m.group(2) or m.group(2)[0].isdigit():
+        raise ValueError("_RE_BRANCH_IN_TAG_SUBSTR has an unexpected shape: %r" % pats.get("_RE_BRANCH_IN_TAG_SUBSTR"))
+    out["brPre"], out["brSep"] = m.groups()
+    # both are applied with .match (anchored at the start)
+    for fn, rex in (("_parse_default_buildtag", "_RE_BUILD_TAG"), ("guess_major_minor_build_by_tag_substr", "_RE_BRANCH_IN_TAG_SUBSTR")):
+        f = _find(pr, ast.FunctionDef, fn)
+        uses = [n for n in ast.walk(f) if isinstance(n, ast.Call) and isinstance(n.func, ast.Attribute)
+                and isinstance(n.func.value, ast.Attribute) and n.func.value.attr == rex]
+        if len(uses) != 1 or uses[0].func.attr != "match":
+            raise ValueError("%s does not apply %s with .match" % (fn, rex))
     return out
 
 
@@ -141,19 +170,94 @@ def translate(repo):
             "def obsoleteCutoff : Nat := %d\n"
             "/-- `_CHECK_COMPONENTS_CUTOFF_PERIOD` (seconds) -/\n"
             "def componentsCutoff : Nat := %d\n"
+            "/-- `_RE_BUILD_TAG` = tagPre (\\d+) tagSep (.*) tagSuf $ -/\n"
+            "def tagPre : List Char := %s.toList\n"
+            "def tagSep : List Char := %s.toList\n"
+            "def tagSuf : List Char := %s.toList\n"
+            "/-- `_RE_BRANCH_IN_TAG_SUBSTR` = brPre (\\d+) brSep (\\d+) $ -/\n"
+            "def brPre : List Char := %s.toList\n"
+            "def brSep : List Char := %s.toList\n"
             "end Gen.Ghist\n") % (
         ", ".join("'%s'" % s for s in c["seps"]), _lean_str(c["sentinel"]),
         ", ".join(_lean_str(m) + ".toList" for m in c["masters"]), _lean_str(c["release"]),
-        *c["fakeNB"], *c["fakeNM"], c["fakeStart"], c["obsoleteCutoff"], c["componentsCutoff"])
+        *c["fakeNB"], *c["fakeNM"], c["fakeStart"], c["obsoleteCutoff"], c["componentsCutoff"],
+        _lean_str(c["tagPre"]), _lean_str(c["tagSep"]), _lean_str(c["tagSuf"]), _lean_str(c["brPre"]), _lean_str(c["brSep"]))
     return {"AkVerif/Gen/Ghist.lean": body}
 
 
 # ------------------------------------------------------------------ protocol text
 
+def commit_tag_names(c):
+    """names of the git tags of a commit: its build tags ("t", rendered the way the build server names them) and the
+    other tags it carries ("xt": names that are no successful-build tags)"""
+    return [tag_name(bn) for bn in c.get("t", [])] + list(c.get("xt", []))
+
+
+def saved_version(c):
+    """major.minor of the VERSION file of the commit: present when a build tag does not name its release line"""
+    ver = [bn for bn in c.get("t", []) if bn[0] >= MASTER_STYLE_FROM]
+    if ver:
+        return (ver[0][0], ver[0][1])
+    return tuple(c["sv"]) if c.get("sv") else None
+
+
+NOISE_TAGS = ["v1.%d", "build_%d_release_1_1_failed", "build_%d_success", "xbuild_%d_release_1_1_success",
+              "build_x%d_release_1_1_success", "build_%d_release_1_1_success_", "Build_%d_release_1_1_success",
+              "build_%drelease_1_1_success", "build__release_1_%d_success", "release_1_%d"]        # no build tags
+TRAP_BUILD_TAGS = ["build_00%d_release_1_1_success", "build_%d_release_01_0010_success"]             # build tags
+TRAP_SAVED_TAGS = ["build_%d_release_1_2_3_success", "build_%d_prerelease_1_2_success", "build_%d__success",
+                   "build_%d_release_1_success", "build_%d_release_1_x_success"]   # build tags that need the VERSION file
+
+
+def add_noise_tags(rng, h, p=0.35, traps=True):
+    """other tags on some commits: names that are not successful-build tags, and build tags in unusual spellings"""
+    for i, c in enumerate(h["commits"]):
+        if rng.random() >= p:
+            continue
+        t = rng.choice(NOISE_TAGS)
+        xt = [t % (i + 1) if "%d" in t else t]
+        if traps and rng.random() < 0.3:
+            xt.append(rng.choice(TRAP_BUILD_TAGS) % (200 + i))
+        if traps and rng.random() < 0.4:
+            if saved_version(c) is None:
+                c["sv"] = rng.choice([[1, 1], [2, 0], [77, 3]])      # a version file without a master-style tag
+            xt.append(rng.choice(TRAP_SAVED_TAGS) % (300 + i))
+        c["xt"] = xt
+    return h
+
+
 def enc_commit(c, i=None):
     p = ",".join(str(x) for x in c["p"]) if c["p"] else "-"
-    t = "+".join(".".join(str(x) for x in bn) for bn in c.get("t", [])) or "-"
-    return "%s:%s:%d:%d" % (p, t, 1 if c["m"] else 0, commit_ts(c, i))
+    t = "+".join(enc_str(n) for n in commit_tag_names(c)) or "-"
+    sv = saved_version(c)
+    return "%s:%s:%d:%d:%s" % (p, t, 1 if c["m"] else 0, commit_ts(c, i), "%d.%d" % sv if sv else "-")
+
+
+_TAG_BUILD = re.compile(r"build_(\d+)_(.*)_success$")
+_TAG_BRANCH = re.compile(r"release_(\d+)_(\d+)$")
+
+
+def dec_tags(t, sv):
+    """tag names of the protocol -> (build numbers, other tag names): the harness' own reading of the naming scheme
+    `build_<n>_<branch>_success`, branch = `release_<major>_<minor>` or anything else (then major.minor come from the
+    VERSION file)"""
+    bns, other = [], []
+    for tok in ([] if t == "-" else t.split("+")):
+        name = dec_str(tok)
+        m = _TAG_BUILD.match(name)
+        if not m:
+            other.append(name)
+            continue
+        n = int(m.group(1))
+        m2 = _TAG_BRANCH.match(m.group(2))
+        if m2:
+            bns.append([int(m2.group(1)), int(m2.group(2)), n, n])
+        elif sv != "-":
+            M, mi = [int(x) for x in sv.split(".")]
+            bns.append([M, mi, n, n])
+        else:
+            raise ValueError("build tag %r on a commit without a VERSION file" % name)
+    return bns, other
 
 
 def commit_ts(c, i):
@@ -190,10 +294,14 @@ def dec_hist(remote, commits, refs):
     cs = []
     if commits != "-":
         for tok in commits.split(";"):
-            p, t, m, ts = tok.split(":")[:4]
-            cs.append({"p": [] if p == "-" else [int(x) for x in p.split(",")],
-                       "t": [] if t == "-" else [[int(x) for x in bn.split(".")] for bn in t.split("+")],
-                       "m": int(m), "ts": int(ts)})
+            p, t, m, ts, sv = tok.split(":")[:5]
+            bns, other = dec_tags(t, sv)
+            c = {"p": [] if p == "-" else [int(x) for x in p.split(",")], "t": bns, "m": int(m), "ts": int(ts)}
+            if other:
+                c["xt"] = other
+            if sv != "-":
+                c["sv"] = [int(x) for x in sv.split(".")]
+            cs.append(c)
     rs = []
     if refs != "-":
         for tok in refs.split(";"):
@@ -218,7 +326,7 @@ def tag_name(bn):
     return "build_%d_release_%d_%d_success" % (b, M, m)
 
 
-def mock_lines(h, text, pins_file=None, noise=False):
+def mock_lines(h, text, pins_file=None):
     """description lines for tests.mock_git.MockedGitRepo"""
     byhead = {}
     for n, hd in h["refs"]:
@@ -231,14 +339,12 @@ def mock_lines(h, text, pins_file=None, noise=False):
         ps = ",".join(str(p + 1) for p in c["p"]) if c["p"] else "0"
         msg = ("fix %s in c%d" % (text, i)) if c["m"] else ("other c%d" % i)
         l = "%d<-%s|%s" % (i + 1, ps, msg)
-        tags = [tag_name(bn) for bn in c.get("t", [])]
-        if noise and i % 3 == 0:
-            tags += ["v1.%d" % i, "build_%d_release_1_1_failed" % i]
+        tags = commit_tag_names(c)
         if tags:
             l += "|tags: " + ", ".join(tags)
-        ver = [bn for bn in c.get("t", []) if bn[0] >= MASTER_STYLE_FROM]
+        ver = saved_version(c)
         if ver:
-            l += "|file:VERSION:%d.%d" % (ver[0][0], ver[0][1])
+            l += "|file:VERSION:%d.%d" % ver
         if pins_file is not None and c.get("pins"):
             for k, v in sorted(c["pins"].items()):      # one version file per component: DEP_<name>
                 l += "|file:%s%s:%s" % (pins_file, k, json.dumps({k: "%d.%d.%d" % tuple(v)}))
@@ -280,9 +386,9 @@ def repo_classes():
     return _CLASSES
 
 
-def mock_repo(h, name, text, pins_file=None, noise=False):
+def mock_repo(h, name, text, pins_file=None):
     k = repo_classes()
-    repo = k["Mock"](*mock_lines(h, text, pins_file, noise), name=name)
+    repo = k["Mock"](*mock_lines(h, text, pins_file), name=name)
     for c in repo.all_commits.values():          # the times of the history, deterministic
         c.committed_date = BASE_TS + commit_ts(h["commits"][c.intid - 1], c.intid - 1)
     return repo
